@@ -23,7 +23,7 @@ RULE = ("Tables (local and fake S3; 2-4 retained snapshots chosen by the seed) w
         "marker, uncommitted metadata files of the current and of the NEXT version number (crash leftovers; the latter references only the current snapshot), and deletable 2 h old orphans, all reachable files aged 2 h so that any wrong decision deletes something. (a) a fault at EVERY step of a "
         "clean collection run (local: storage API calls and the os-level calls under them, once as a one-shot error and once persisting for that call on that file; S3 (2 keys per listing page): every request, once as a single transient error that the retry layer absorbs and once failing persistently through all retries), "
         "(b) each of the three listings returning an escaping path, (c) every reachable metadata-plane file x {delete, truncations, random bytes} that an "
-        "independent parser rejects, plus the current metadata file as valid JSON without its 'snapshots' section, (d) each existence probe of the collection wrongly answering False (an I/O error swallowed into 'does not exist'). Oracle: a run that raised deleted nothing; a run that returned deleted no file that is reachable in the UNDAMAGED "
+        "independent parser rejects, plus the current metadata file as valid JSON without its 'snapshots' section, (d) each existence probe of the collection wrongly answering False (an I/O error swallowed into 'does not exist'). After a run that raised, the SAME handle collects a second time (fault gone / damage still there) and both runs are judged together. Oracle: a run that raised deleted nothing; a run that returned deleted no file that is reachable in the UNDAMAGED "
         "table or protected by a live marker. Non-trivial: the fault hit a call whose result feeds the reachable/protected sets (anything before the first "
         "delete). distinct = (world, variant, fault class, normalised step).")
 ASSUMPTIONS = ["ages are set with utime / LastModified rewriting; 'live' markers are younger than 24 h",
@@ -123,7 +123,7 @@ def listing(w):
     return set(fs.list("data")) | set(fs.list("metadata"))
 
 
-def run_gc(w, stepper=None, escape_listing=None, lying_exists=None):
+def run_gc(w, stepper=None, escape_listing=None, lying_exists=None, again=None):
     """returns (raised exception or None)"""
     with w.env(stepper):
         try:
@@ -164,6 +164,17 @@ def run_gc(w, stepper=None, escape_listing=None, lying_exists=None):
             t.garbage_collect()
             return None
         except Exception as e:  # noqa
+            if again is not None:
+                # the SAME handle collects once more, now without the fault: whatever the aborted run left on the handle
+                # (a half-filled cache ...) must not weaken this run
+                if stepper is not None:
+                    stepper.enabled = False
+                    stepper.handler = None
+                try:
+                    t.garbage_collect()
+                    again["second"] = None
+                except Exception as e2:  # noqa
+                    again["second"] = e2
             return e
         finally:
             if stepper is not None:
@@ -234,14 +245,20 @@ def run_variant(task):
                             raise client_error("InternalError", "Op", 500)
 
                     sti.handler = h
-                    r = run_gc(wi, sti)
+                    again = {}
+                    r = run_gc(wi, sti, again=again)
                     nl = c04.norm_label(label, target)
                     cls = _fault_class(label, target)
                     case = {"kind": "gc", "world": wk, "variant": variant, "class": cls, "k": k, "step": nl, "sticky": sticky}
                     res.case(key=f"{wk}|{variant}|a|{nl}|{sticky}", nontrivial=k < first_delete,
                              labels=["a:fault", f"world:{wk}", f"a:{cls}", "raised" if r else "returned"] + (["a:persistent"] if sticky else ["a:one-shot"]),
                              sample=case if k % 29 == 0 else None)
-                    if fired:
+                    if fired and "second" in again:
+                        # judged after BOTH runs: the aborted one and the fault-free one that followed on the same handle
+                        res.labels["a:second-run-on-same-handle"] += 1
+                        judge(res, wi, before, R, P, again["second"], dict(case, **{"class": cls + "+second-run"}),
+                              f"{'persistent ' if sticky else ''}fault at step {k} [{nl}] aborted the collection; then a fault-free collection through the same handle")
+                    elif fired:
                         judge(res, wi, before, R, P, r, case, f"{'persistent ' if sticky else ''}fault at step {k} [{nl}]")
                     if wk == "local":
                         import shutil
@@ -295,6 +312,7 @@ def run_variant(task):
                 orig = base.fs().get(path)
                 n = len(orig)
                 dmg = [("delete", None), ("truncate0", b""), ("truncate-half", orig[: n // 2]), ("truncate-1", orig[:-1]), ("truncate-magic", orig[:4]),
+                       ("truncate-3q", orig[: 3 * n // 4]), ("truncate-9t", orig[: 9 * n // 10]), ("truncate-20", orig[: max(n - 20, 1)]),
                        ("random", bytes((i * 37 + 11) % 256 for i in range(n)))]
                 if cls == "metadata":
                     # still JSON, but the section that lists the snapshots is gone: nothing can be decided from it
@@ -310,8 +328,13 @@ def run_variant(task):
                         continue
                     wi = base.clone(f"{d}/c{len(seen)}_{dname}") if wk == "local" else base.clone()
                     _set(wi, path, payload)
-                    r = run_gc(wi)
-                    case = {"kind": "gc", "world": wk, "variant": variant, "class": f"corrupt-{cls}-{dname}", "path_class": cls, "damage": dname}
+                    again = {}
+                    r = run_gc(wi, again=again)
+                    if "second" in again:
+                        # the damage persists; the same handle collects a second time after the aborted run
+                        res.labels["c:second-run-on-same-handle"] += 1
+                        r = again["second"]
+                    case = {"kind": "gc", "world": wk, "variant": variant, "class": f"corrupt-{cls}-{dname}" + ("+second-run" if "second" in again else ""), "path_class": cls, "damage": dname}
                     res.case(key=f"{wk}|{variant}|c|{cls}|{dname}|{path in R}", nontrivial=True, labels=["c:corruption", f"world:{wk}", f"c:{cls}", "raised" if r else "returned"], sample=case if dname == "random" else None)
                     before_i = before - ({path} if payload is None else set())
                     judge(res, wi, before_i, R - {path}, P, r, case, f"{cls} file {path} damaged by {dname}")
